@@ -256,6 +256,10 @@ func needsParens(n ast.Node, p pos, parentPrec int, right bool) bool {
 func (r *R) Expr(n ast.Node) { r.expr(n, posExpr, 0, false) }
 
 func (r *R) expr(n ast.Node, p pos, parentPrec int, right bool) {
+	if ex, ok := n.(ast.Exact); ok {
+		r.node(ex.X)
+		return
+	}
 	start := -1
 	wrap := needsParens(n, p, parentPrec, right)
 	if !wrap && r.o.Wild >= 1 {
